@@ -184,7 +184,14 @@ def summary_frame(repo, chk):
             chains.append(E(f"{base}.groupby({g}).median().sort_values({by}, ascending=False).reset_index()"))
     pred = lambda e: isinstance(e, ast.Name) and e.id == heur
     seen = {}
-    for hval, is_mi in (('MI-numba-randomized', True), ('surrogate-SGD', False)):
+    # every heuristic name the package dispatches on (AMI contains 'MI' without starting with it; 'correlation-Pearson' does not contain it)
+    try:
+        from .common import heuristic_universe
+        universe = sorted(h for h in heuristic_universe(repo) if isinstance(h, str) and h)
+    except Exception:
+        universe = []
+    cases = [('MI-numba-randomized', True), ('surrogate-SGD', False)] + [(h, 'MI' in h) for h in universe if h not in ('MI-numba-randomized', 'surrogate-SGD')]
+    for hval, is_mi in cases:
         paths = run_paths(fn, pred, hval, max_forks=2)
         if not paths or len(paths) != 1 or paths[0][1].unknown is not None or paths[0][1].returned is None:
             node = paths[0][1].unknown if paths and paths[0][1].unknown is not None else None
